@@ -8,30 +8,49 @@ from vlib import core
 TRUST = ("Lean 4.33 kernel; axioms at most propext/Classical.choice/Quot.sound (audited per run); "
          "hand-written model tied to the C++ by the correspondence harness (differential, generator-bounded); ")
 MANIFEST = dict(
-  text=("Theorems (Props/C19.lean) about an executable model of the importers' logic, for every list of parsed records, every "
-        "dimension argument, batch size and value type: the LibSVM logic with the proposed repair returns the library's "
-        "exception or a well-formed dataset (equal dimensions = shape, sparse indices increasing and in range, labels below "
-        "numberOfClasses, one element per record, batches adding up and bounded) and never writes out of bounds "
-        "(import_wellformed_or_error_svm, sparse_writes_in_bounds); the logic as it is in the tree does so for strictly "
-        "increasing indices only (sparse_writes_in_bounds_partial, with decide-checked out-of-bounds / empty-input witnesses) and "
-        "agrees with the repaired one on such inputs (repaired_eq_current); the three CSV overload families return the "
-        "exception or a well-formed dataset with batches <= requested (import_wellformed_or_error_csv_*, via lemmas about "
-        "optimalBatchSizes); exported records are read back unchanged at token level (csv_roundtrip, csv_roundtrip_regression, libsvm_roundtrip); the PEG model of the eight phrase_parse grammars never loops without consuming input (parser_total). "
-        "The model — a PEG-with-skipper interpreter with the phrase_parse grammars of Csv.cpp/SparseData.cpp, spirit's numeric "
-        "lexers, exact decimal->double conversion, and the post-parse logic — is tied to the real importers by an exact "
-        "line-by-line correspondence on grammar-directed files, byte-level mutations and exporter->importer round trips, for all "
-        "14 LibSVM/CSV overloads, under ASan/UBSan with an allocation limit and a watchdog."),
-  note=TRUST + "boost::spirit's own parsing and memory safety are runtime evidence only (sanitizers + watchdog over the generated files); 'never hangs' is a theorem "
-       "about the PEG model of the grammars (parser_total), for the real parsers it is the watchdog; "
-       "numeric values are compared only for tokens of at most 15 digits and one-digit exponents (others run for memory safety + oracle only); "
-       "the scalar CSV readers (Data<int/unsigned/float/double>) are not covered; libsvm_roundtrip is proved for regression labels and dense export (classification label mapping 2l-1 / l+1 only exercised by the rt stream).",
-  technique="Lean 4 proof about an executable importer model + differential correspondence with the C++ (ASan/UBSan)",
-  design="§6 C19")
+  text=("Theorems (Props/C19.lean) about an executable model of the importers and exporters. FROM BYTES, for every byte sequence and every "
+        "configuration: the models of importSparseData (line splitting, PEG model of the record grammar, index-order check, dimension / "
+        "zero-base / label logic, dense or sparse, classification or regression, any highestIndex and batch size) and of the three "
+        "csvStringToData families (PEG model of the seven phrase_parse grammars, then row/label/batch logic; any separator, comment "
+        "character, label position, number of outputs, maximum batch size incl. 0 = unlimited) return the library's exception, bad_alloc "
+        "(dense LibSVM vectors beyond the allocation limit) or a well-formed dataset — equal dimensions = shape, sparse indices increasing "
+        "and in range, labels below numberOfClasses, one element per record, batches adding up and bounded — and never write out of bounds "
+        "(import_bytes_wellformed_or_error_svm, import_bytes_wellformed_or_error_csv, on top of import_wellformed_or_error*, "
+        "sparse_writes_in_bounds; file overloads = string overloads on a suffix: dropTitleLines_suffix). No theorem is `_partial` any more: "
+        "the sortedness hypothesis belonged to the pre-fix LibSVM logic, kept as history (legacy_writes_in_bounds_of_sorted + decide-checked "
+        "witnesses). The PEG model never loops without consuming input (parser_total). Round trip at token level for all datasets: "
+        "csv_roundtrip (class 0 present, else the importer's documented shift: csv_roundtrip_shift_witness), csv_roundtrip_regression, "
+        "libsvm_roundtrip. "
+        "The model — PEG-with-skipper interpreter, spirit 1.83's numeric lexers with every rounding of real_impl/scale (uint64 accumulator, "
+        "pow10 table, compensate_roundoff, exponent limits), exact IEEE rounding, the post-parse logic, and the exporters as BYTE printers "
+        "with the number formatting they rely on (%.10e / %.10g / %.6g by exact decimal conversion, setw padding, inf/nan, -1/+1 and +1 "
+        "label mappings, sortLabels, append) — is tied to the real code by exact line-by-line correspondence under ASan/UBSan with an "
+        "allocation limit and a 20 s watchdog per op, in both tiers: all 16 importSparseData overloads (stream and file), csvStringToData "
+        "and importCSV (string and file, titleLines) for Data<RealVector/FloatVector/int/unsigned/float/double> and both labelled families, "
+        "exportCSV (unlabelled, class and vector labels; scientific on/off; field width) and exportSparseData (dense/sparse, float/double, "
+        "oneMinusOne, sortLabels, append): the written file is compared byte for byte, then imported again and compared value for value; "
+        "an independent oracle in the harness judges the round trip (values equal up to the printed precision, floats exactly, labels up "
+        "to the importer's shift) and the well-formedness clauses. Streams: grammar-directed files, byte mutations, a hostile generator "
+        "(huge / duplicate / descending / zero indices, odd labels, CR/LF mixes, trailing separators, NULs, long lines, numbers at the edge "
+        "of double/unsigned/int range, comments) — class histograms, outcomes and the library check that fired are in the evidence."),
+  note=TRUST + "boost::spirit's and iostream's own code is runtime evidence only (sanitizers + watchdog + exact comparison with the model over the "
+       "generated files); 'never hangs' is a theorem about the PEG model (parser_total), for the real parsers it is the watchdog; "
+       "numeric values are compared for tokens whose digits fit spirit's uint64 accumulator (<= 17 digits, any exponent); longer tokens and, "
+       "for the float scalar reader, anything but plain integers of <= 7 digits run for memory safety + oracle only; "
+       "the number formatting model (fmtE/fmtG) and the byte-level round trip parse(print d) are tied by exact correspondence, not proved — the "
+       "round-trip theorems are at token level with the separator outside the characters of a number as an explicit assumption; "
+       "libsvm_roundtrip is proved for regression labels and dense export (class label mappings and sparse inputs: correspondence + oracle); "
+       "sortLabels only for <= 13 elements (std::sort is unstable beyond 16). Open findings probed on every run: F10 (maximumBatchSize 0 divides "
+       "by zero), F11 (spirit leaves the iterator behind a number with out-of-range exponent: read as missing value / dropped), F12 (export_libsvm "
+       "cannot be instantiated); the model has the repaired behaviour, the generated stream avoids the triggers while the probes fail.",
+  technique="Lean 4 proof about an executable importer/exporter model + differential correspondence with the C++ (ASan/UBSan)",
+  design="§6 C19, §14 C19")
 
 FINISH = dict(level="proof",
-              rule="files from one SplitMix64 stream: grammar-directed mostly-valid LibSVM/CSV text with format variations, "
-                   "and byte-level mutations of those; a case is non-trivial if the file has at least 2 records; "
-                   "distinct = distinct op text")
+              rule="ops from one SplitMix64 stream: grammar-directed mostly-valid LibSVM/CSV text with format variations, byte-level "
+                   "mutations of those, hostile files of 13 named classes, scalar files, and export ops carrying random datasets "
+                   "(full-range doubles/floats, inf, nan, zeros, sparse/dense); a case is non-trivial if the file / dataset has at "
+                   "least 2 records; distinct = distinct op text")
 
 LAKE_TARGETS = ["SharkVerif.Props.C19", "drv_c19"]
 
@@ -42,23 +61,58 @@ def hx(b):
 
 # ------------------------------------------------------------------ mode
 DIGRUN = re.compile(rb"[0-9][0-9.]*")
-EXPO = re.compile(rb"[0-9.][eE][+-]?[0-9]")
+EXPTOKEN = re.compile(rb"([0-9]*)(?:\.([0-9]*))?[eE]([+-]?[0-9]+)")
+EXPONENT_RANGE_REPAIRED = False      # set by the probe `exponent-out-of-range` in run()
 
 
-def mode_of(data):
+def mode_of(data, float_scalar=False):
     """X: values are compared exactly; S: memory safety + oracle only.
-    S when some numeric token may not be parsed with a single rounding by spirit:
-    more than 15 digits in a run, or any exponent part at all with 2+ digits."""
+    The model follows boost 1.83's real_impl (uint64 accumulator, pow10 table, every rounding), so any
+    token whose integer+fraction digits fit the accumulator (<= 17 digits) is compared, with any exponent.
+    The float scalar reader (uint32 accumulator, float arithmetic) is compared for plain integers of
+    at most 7 digits only."""
+    lim = 7 if float_scalar else 17
     for m in DIGRUN.finditer(data):
-        if sum(1 for c in m.group(0) if 48 <= c <= 57) > 15:
+        if sum(1 for c in m.group(0) if 48 <= c <= 57) > lim:
             return "S"
-    for m in re.finditer(rb"[0-9.][eE][+-]?([0-9]+)", data):
-        if len(m.group(1)) > 1:
-            return "S"
+    if float_scalar and re.search(rb"[.eE]", data):
+        return "S"
+    if not EXPONENT_RANGE_REPAIRED and exp_out_of_range(data, float_scalar):
+        return "S"
     return "X"
 
 
+def exp_out_of_range(data, float_scalar=False):
+    hi, lo, run = (38, -74, rb"[0-9]{30,}") if float_scalar else (308, -614, rb"[0-9]{300,}")
+    if True:
+        # finding F11: a number whose decimal exponent is outside [-614, 308] makes spirit's double_ fail WITHOUT
+        # restoring the iterator; the CSV grammars then read it as a missing value / drop it.  The model has the
+        # repaired behaviour (the number does not parse), so such files run for memory safety + oracle only.
+        for m in EXPTOKEN.finditer(data):
+            try: e = int(m.group(3))
+            except ValueError: continue
+            if abs(e) > 2147483648: continue
+            ni, nf = len(m.group(1) or b""), len(m.group(2) or b"")
+            acc = 7 if float_scalar else 17          # digits spirit accumulates; later integer digits count as exponent
+            k = e - min(nf, max(0, acc - ni)) + max(0, ni - acc)
+            if k > hi or k < lo:
+                return True
+        # same effect without an exponent part: digits beyond the accumulator count as a positive exponent
+        for m in re.finditer(run, data):
+            return True
+    return False
+
+
 # ------------------------------------------------------------------ generators
+EDGE_NUMBERS = ["1.7976931348623157e308", "1.7976931348623159e308", "1e308", "1e309", "9e308", "4.9e-324", "2.4e-324", "2.5e-324",
+                "4.9406564584124654e-324", "2.2250738585072014e-308", "2.2250738585072011e-308", "1e-307", "1e-308", "1e-323",
+                "1e-614", "1e-615", "123e-330", "0.000000000000000000001", "9007199254740993", "9007199254740992", "18014398509481985",
+                "4294967295", "4294967296", "2147483647", "2147483648", "-2147483648", "-2147483649", "1844674407370955161",
+                "9999999999999999999", "0.30000000000000004", "1e22", "1e23", "8.5e22", "5e-1", "1e+0", "1e-0", "1E5", "3.4028235e38",
+                "3.4028236e38", "1.4e-45", "7e-46", "16777217", "-0.0", "-0e5", "0e999999999", "1e2147483647", "1e2147483648",
+                "1e-2147483648", "00000000000000000001", "1.e3", ".5e1", "5.e-1"]
+
+
 def num_token(r, integral=False):
     """a numeric token spirit parses with one rounding"""
     k = r.below(100)
@@ -67,7 +121,9 @@ def num_token(r, integral=False):
     if k < 50: return r.choice(["0.5", "-0.25", "1.75", "2.", ".5", "-.125", "+3", "1e1", "2.5e-1", "1E2", "0", "-0", "0.0"])
     if k < 75: return f"{r.range(-99, 99)}.{r.range(0, 999)}"
     if k < 80: return r.choice(["nan", "inf", "-inf", "NaN", "infinity", "nan(1)", "-nan"])
-    if k < 90: return f"{r.range(0, 9)}.{r.range(0, 99)}e{r.choice(['', '+', '-'])}{r.range(0, 6)}"
+    if k < 86: return f"{r.range(0, 9)}.{r.range(0, 99)}e{r.choice(['', '+', '-'])}{r.range(0, 6)}"
+    if k < 92: return f"{r.range(1, 9)}.{r.range(0, 10**r.range(1, 15))}e{r.choice(['', '+', '-'])}{r.range(0, 330)}"
+    if k < 96: return r.choice(EDGE_NUMBERS)
     return f"0.{r.range(1, 999999999)}"
 
 
@@ -136,18 +192,197 @@ def mutate(r, data, ctx=None):
     return bytes(b)
 
 
+HOSTILE = ["huge-index", "duplicate-index", "descending-index", "zero-index", "odd-label", "crlf-mix", "trailing-separator",
+           "embedded-nul", "long-line", "edge-number", "comment", "blank-lines", "colon-spacing"]
+
+
+def gen_hostile_svm(r, ctx=None):
+    """one malformed-ish LibSVM file of a named class"""
+    cls = r.choice(HOSTILE)
+    n = r.choice([1, 1, 2, 3, 5])
+    lines = []
+    for i in range(n):
+        lab = r.choice(["1", "-1", "0", "2", "1"])
+        idx = sorted({r.range(1, 9) for _ in range(r.range(0, 4))})
+        feats = [f"{k}:{num_token(r)}" for k in idx]
+        if cls == "huge-index":
+            feats.append(f"{r.choice([4294967295, 4294967296, 4294967294, 2147483648, 1 << 63, 1 << 64, 10**30, 131072, 131073, 262144, 100000])}:1")
+        elif cls == "duplicate-index" and idx:
+            feats.insert(r.below(len(feats) + 1), f"{r.choice(idx)}:{num_token(r)}")
+        elif cls == "descending-index":
+            feats = feats[::-1] if len(feats) > 1 else feats + ["3:1", "2:1"]
+        elif cls == "zero-index":
+            z = r.below(3)
+            feats = (["0:1"] + feats) if z == 0 else (feats + ["0:1"]) if z == 1 else (["00:2"] + feats)
+        elif cls == "odd-label":
+            lab = r.choice(["-0", "-1.0", "0.5", "1e0", "2.0000", "-2", "1.5e1", "+1", "nan", "inf", "-inf", "1e10", "2147483647", "2147483648",
+                            "-2147483649", "3000000000", "1.0000000000000002", "0.9999999999999999", "-1e-320", "", "+", "-", "1-1", "0x1"])
+        elif cls == "edge-number":
+            feats = [f"{k}:{r.choice(EDGE_NUMBERS)}" for k in (idx or [1])]
+            if r.chance(1, 3): lab = r.choice(EDGE_NUMBERS)
+        elif cls == "colon-spacing":
+            feats = [f.replace(":", r.choice([" :", ": ", " : ", "::", ":", "\t:\t", ":\r"])) for f in feats]
+        line = " ".join([lab] + feats)
+        if cls == "trailing-separator":
+            line += r.choice([" ", "  ", "\t", " :", " 3:", " 3", ":", " 4:1 ", ","])
+        elif cls == "embedded-nul":
+            k = r.below(len(line) + 1); line = line[:k] + "\x00" + line[k:]
+        elif cls == "long-line" and i == 0:
+            z = r.below(4)
+            if z == 0: line = lab + "".join(f" {k}:{k % 7}" for k in range(1, r.range(300, 900)))
+            elif z == 1: line = lab + " 1:" + "1" * r.range(400, 4000)
+            elif z == 2: line = lab + " " * r.range(1000, 6000) + "1:1"
+            else: line = lab + " 1:0." + "0" * r.range(300, 700) + "1"
+        elif cls == "comment":
+            line = r.choice(["# comment", line + " # c", "#" + line, line + "#"])
+        lines.append(line)
+    if cls == "crlf-mix":
+        out = "".join(l + r.choice(["\r\n", "\r", "\n\r", "\n", "\r\r\n", "\n\n", "\v\n", "\f\n"]) for l in lines)
+    elif cls == "blank-lines":
+        out = r.choice(["", "\n", "\n\n", " \n", "\t\n"]) + "".join(l + r.choice(["\n", "\n\n", "\n \n", "\n\t\n"]) for l in lines)
+    else:
+        out = "\n".join(lines) + r.choice(["\n", "", "\n\n"])
+    if ctx: ctx.hist("hostile_svm_class", cls)
+    return out.encode("latin-1")
+
+
+def gen_hostile_csv(r, kind, lp, sep, ctx=None):
+    cls = r.choice(HOSTILE[4:] + ["ragged", "missing-values", "separator-run"])
+    n = r.choice([1, 1, 2, 3, 5]); d = r.choice([1, 2, 3])
+    ws = sep in " \t"
+    lines = []
+    for i in range(n):
+        cells = [num_token(r) for _ in range(d)]
+        lab = r.choice(["0", "1", "1", "2", "-1"])
+        if cls == "odd-label":
+            lab = r.choice(["-0", "-1.0", "0.5", "1e0", "2.0000", "-2", "1.", "+1", "nan", "2147483647", "2147483648", "-2147483649",
+                            "1.00x", "1.0 0", "3.50", "1.000000000000000000000", "", "-", "1.5.0", "00", "0.0.0"])
+        elif cls == "edge-number":
+            cells = [r.choice(EDGE_NUMBERS) for _ in range(d)]
+        elif cls == "missing-values":
+            cells = [r.choice(["?", "", "?", " ? ", "??", "nan", "NaN", "?1", "1?"]) if r.chance(1, 2) else c for c in cells]
+        elif cls == "ragged" and r.chance(1, 2):
+            cells = cells[:r.below(d + 1)] + ([num_token(r)] * r.below(3))
+        if kind == "c": cells = [lab] + cells if lp == "F" else cells + [lab]
+        j = sep
+        if cls == "separator-run": j = sep * r.range(1, 3)
+        line = j.join(cells)
+        if cls == "trailing-separator": line += r.choice([sep, sep + sep, sep + " ", " " + sep, sep + "\t"])
+        elif cls == "embedded-nul":
+            k = r.below(len(line) + 1); line = line[:k] + "\x00" + line[k:]
+        elif cls == "long-line" and i == 0:
+            z = r.below(3)
+            if z == 0: line = sep.join(str(k % 10) for k in range(r.range(300, 1200)))
+            elif z == 1: line = "1" * r.range(400, 3000) + (sep + "1" if kind != "u" else "")
+            else: line = line + " " * r.range(1000, 5000) + "# long comment " + "x" * r.range(100, 3000)
+            if kind == "c": line = ("1" + sep + line) if lp == "F" else (line + sep + "1") if z != 2 else line
+        elif cls == "comment":
+            line = r.choice(["# comment", line + " # c", "#" + line, line + "#", "#", "##", line + "#\r", "# a\r\n# b"])
+        lines.append(line)
+    if cls == "crlf-mix":
+        out = "".join(l + r.choice(["\r\n", "\r", "\n\r", "\n", "\r\r\n", "\n\n", "\v\n", "\f\n", " \r"]) for l in lines)
+    elif cls == "blank-lines":
+        out = r.choice(["", "\n", "\r\n\r\n", " \n", "\t\n"]) + "".join(l + r.choice(["\n", "\n\n", "\n \n", "\n\t\n", "\r\r"]) for l in lines)
+    else:
+        out = "\n".join(lines) + r.choice(["\n", "", "\n\n", "\r\n"])
+    if ctx: ctx.hist("hostile_csv_class", cls)
+    return out.encode("latin-1")
+
+
+# ------------------------------------------------------------------ exporters (datasets are written into the op)
+def val_tok(x):
+    import math
+    if x != x: return "nan"
+    if math.isinf(x): return "inf" if x > 0 else "-inf"
+    if x == 0: return "-0^0" if math.copysign(1, x) < 0 else "0^0"
+    m, e = math.frexp(abs(x)); mi = int(math.ldexp(m, 53)); e -= 53
+    while mi % 2 == 0: mi //= 2; e += 1
+    return ("-" if x < 0 else "") + f"{mi}^{e}"
+
+
+def gen_value(r, f32, ctx=None, allow_nan=True):
+    import struct
+    k = r.below(100)
+    if k < 25: x, c = (r.range(-20, 20)) / 4.0, "dyadic-small"
+    elif k < 40: x, c = float(r.range(-10**6, 10**6)), "integer"
+    elif k < 55: x, c = r.range(-10**9, 10**9) / 10.0 ** r.range(0, 12), "decimal"
+    elif k < 75:
+        bits = r.below(1 << 64)
+        x = struct.unpack("<d", struct.pack("<Q", bits))[0]; c = "random-bits"
+        if x != x or x in (float("inf"), float("-inf")): x, c = 1.0, "dyadic-small"
+    elif k < 80: x, c = r.choice([0.0, -0.0]), "zero"
+    elif k < 84: x, c = r.choice([float("inf"), float("-inf")]), "infinity"
+    elif k < 87 and allow_nan: x, c = float("nan"), "nan"
+    elif k < 92: x, c = r.choice([5e-324, 2.2250738585072014e-308, 1.7976931348623157e308, -1.7976931348623157e308, 1e-310, 9.999999999949999e22,
+                                  9.99999999995e-5, 99999.95, 999999.5, 0.0001, 0.00001, 123456789012.0, 9999999999.5, 0.999999999995, 999999.4999999999]), "edge"
+    else: x, c = r.choice([1, -1, 3, 7, 9, 99]) * 10.0 ** r.range(-30, 30), "power-of-ten"
+    if f32 and x == x:
+        try: x = struct.unpack("<f", struct.pack("<f", x))[0]
+        except OverflowError: x = float("inf") if x > 0 else float("-inf")
+    if ctx: ctx.hist("export_value_class", c)
+    return x
+
+
+XSEPS = [",", ",", ";", " ", "\t", "|", ":", "/", "_", "@", "&"]
+
+
+def gen_xcsv(r, ctx=None):
+    kind = r.choice(["u", "c", "c", "r", "r"]); ty = r.choice(["f64", "f64", "f32"]); lp = r.choice(["F", "L"])
+    nout = r.choice([1, 2, 3]) if kind == "r" else 1
+    sep = r.choice(XSEPS); sci = r.choice([1, 1, 0]); width = r.choice([0, 0, 0, 1, 8, 12, 20, 30])
+    maxB = r.choice([1, 2, 3, 5, 256]); n = r.choice([0, 1, 2, 3, 5, 8, 13]); dim = r.choice([1, 1, 2, 3, 6, 0] if r.chance(1, 6) else [1, 2, 3, 6])
+    labelset = r.choice(["01", "012", "12", "all0", "all1", "02", "big"])
+    toks = []
+    for e in range(n):
+        toks += [val_tok(gen_value(r, ty == "f32", ctx)) for _ in range(dim)]
+        if kind == "c":
+            toks.append(str({"01": e % 2, "012": r.below(3), "12": 1 + r.below(2), "all0": 0, "all1": 1, "02": 2 * r.below(2), "big": r.choice([0, 7, 2000000000])}[labelset]))
+        if kind == "r": toks += [val_tok(gen_value(r, ty == "f32", ctx)) for _ in range(nout)]
+    if ctx:
+        ctx.hist("xcsv_kind", f"{kind}{ty}{lp if kind != 'u' else ''}"); ctx.hist("xcsv_separator", repr(sep)); ctx.hist("xcsv_format", f"sci={sci} width={width}")
+        ctx.hist("xcsv_elements", n); ctx.hist("xcsv_dim", dim); ctx.hist("xcsv_batch", maxB)
+        if kind == "c": ctx.hist("xcsv_labelset", labelset)
+    return " ".join(["xcsv", kind, ty, lp, str(nout), str(ord(sep)), str(sci), str(width), str(maxB), str(n), str(dim)] + toks)
+
+
+def gen_xsvm(r, ctx=None):
+    fmt = r.choice(["d", "s"]); lab = r.choice(["c", "r"]); ty = r.choice(["f64", "f64", "f32"])
+    n = r.choice([0, 1, 2, 3, 5, 8, 13]); dim = r.choice([1, 2, 3, 6, 9])
+    dims = r.choice([dim, dim, dim, 0, dim + 2]); bs = r.choice([0, 1, 2, 3, 5, 256])
+    omo = r.choice([1, 1, 0]); srt = 1 if lab == "c" and r.chance(1, 5) else 0; app = 1 if r.chance(1, 6) else 0
+    labelset = r.choice(["01", "01", "012", "12", "all0", "all1", "02"])
+    toks = []
+    for e in range(n):
+        if fmt == "s":
+            idx = sorted({r.below(dim) for _ in range(r.range(0, dim))})
+            toks.append(str(len(idx)))
+            for i in idx: toks += [str(i), val_tok(gen_value(r, ty == "f32", ctx))]
+        else:
+            toks += [val_tok(gen_value(r, ty == "f32", ctx)) for _ in range(dim)]
+        if lab == "c":
+            toks.append(str({"01": e % 2, "012": r.below(3), "12": 1 + r.below(2), "all0": 0, "all1": 1, "02": 2 * r.below(2)}[labelset]))
+        else:
+            toks.append(val_tok(gen_value(r, ty == "f32", ctx)))
+    if ctx:
+        ctx.hist("xsvm_kind", f"{fmt}{lab}{ty}"); ctx.hist("xsvm_options", f"oneMinusOne={omo} sort={srt} append={app}")
+        ctx.hist("xsvm_highestIndex", "dim" if dims == dim else "0" if dims == 0 else "dim+2"); ctx.hist("xsvm_batch", bs); ctx.hist("xsvm_elements", n)
+        if lab == "c": ctx.hist("xsvm_labelset", labelset)
+    return " ".join(["xsvm", fmt, lab, ty, str(dims), str(bs), str(omo), str(srt), str(app), str(n), str(dim)] + toks)
+
+
 def svm_op(r, data, ctx=None, forced=None):
     fmt = r.choice(["d", "s"]); lab = r.choice(["c", "r"]); ty = r.choice(["f64", "f32"])
-    dims = r.choice([0, 0, 0, 1, 3, 8, 25])
+    dims = r.choice([0, 0, 0, 1, 3, 8, 25, 25, 131072, 4294967295])
     bs = r.choice([0, 1, 2, 3, 4, 256])
     if forced: fmt, lab, ty, dims, bs = forced
     m = mode_of(data)
+    via = "svmf" if r.chance(1, 4) else "svm"
     if ctx:
-        ctx.hist("svm_overload", f"{fmt}{lab}{ty}"); ctx.hist("mode", m); ctx.hist("batch_size_arg", bs); ctx.hist("dims_arg", dims)
-    return f"svm {fmt} {lab} {ty} {dims} {bs} {m} {hx(data)}"
+        ctx.hist("svm_overload", f"{fmt}{lab}{ty}{'-file' if via == 'svmf' else '-stream'}"); ctx.hist("mode", m); ctx.hist("batch_size_arg", bs); ctx.hist("dims_arg", dims)
+    return f"{via} {fmt} {lab} {ty} {dims} {bs} {m} {hx(data)}"
 
 
-def gen_csv_file(r, kind, lp, sep, nout, ctx=None):
+def gen_csv_file(r, kind, lp, sep, nout, ctx=None, comment="#"):
     """kind u/c/r; returns bytes"""
     n = r.choice([0, 1, 1, 2, 3, 4, 5, 7, 9, 12])
     d = r.choice([1, 1, 2, 3, 4, 6])
@@ -176,8 +411,8 @@ def gen_csv_file(r, kind, lp, sep, nout, ctx=None):
         if not ws and pad: joiner = pad + sep + pad
         line = joiner.join(cells)
         k = r.below(40)
-        if k == 0: line += " # trailing comment"
-        elif k == 1: line = "# a comment line\n" + line
+        if k == 0: line += f" {comment} trailing comment"
+        elif k == 1: line = f"{comment} a comment line\n" + line
         elif k == 2: line = " " + line + " "
         elif k == 3 and not ws: line += sep
         lines.append(line)
@@ -187,37 +422,60 @@ def gen_csv_file(r, kind, lp, sep, nout, ctx=None):
         e = r.choice(["\n", "\r\n", "\r", "\n\n", " \n"]) if eol == "mixed" else eol
         if i == len(lines) - 1 and r.chance(1, 3): e = ""
         out += l + e
-    if r.chance(1, 15): out = r.choice(["\n", "# header\n", " "]) + out
+    if r.chance(1, 15): out = r.choice(["\n", f"{comment} header\n", " "]) + out
     if ctx:
         ctx.hist("csv_records", n); ctx.hist("csv_eol", repr(eol)); ctx.hist("csv_dims", d)
         if kind == "c": ctx.hist("csv_labelset", labelset)
     return out.encode()
 
 
+MAXB_CHOICES = [1, 2, 3, 4, 256]     # 0 is added once the probe `maxbatch-zero` passes (finding F10)
+
+
 def csv_params(r):
     kind = r.choice(["u", "c", "c", "r"]); ty = r.choice(["f64", "f32"]); lp = r.choice(["F", "L"])
     sep = r.choice([",", ",", ";", " ", "\t", "|", ":"])
     nout = r.choice([1, 1, 2, 0, 3]) if kind == "r" else 1
-    maxb = r.choice([1, 2, 3, 4, 256])
-    return kind, ty, lp, sep, nout, maxb
+    maxb = r.choice(MAXB_CHOICES)
+    comment = r.choice(["#", "#", "#", "#", "%", ";", "!"])
+    if comment == sep: comment = "#"
+    title = r.choice([0, 0, 1, 2, 5]) if r.chance(1, 4) else None
+    return kind, ty, lp, sep, nout, maxb, comment, title
+
+
+def avoid_f11(ctx, make, float_scalar=False):
+    """while finding F11 is open, keep its trigger out of the generated CSV stream (it stays in the corpus):
+    every hit would cost a one-by-one rerun of its chunk"""
+    data = make()
+    for _ in range(8):
+        if EXPONENT_RANGE_REPAIRED or not exp_out_of_range(data, float_scalar): break
+        ctx.count("csv_files_regenerated_to_avoid_F11")
+        data = make()
+    return data
 
 
 def csv_op(params, data, ctx=None):
-    kind, ty, lp, sep, nout, maxb = params
+    kind, ty, lp, sep, nout, maxb = params[:6]
+    comment = params[6] if len(params) > 6 else "#"
+    title = params[7] if len(params) > 7 else None
     m = mode_of(data)
     if ctx:
-        ctx.hist("csv_overload", f"{kind}{ty}{lp if kind != 'u' else ''}"); ctx.hist("mode", m)
-        ctx.hist("csv_separator", repr(sep)); ctx.hist("batch_size_arg", maxb)
-    return f"csv {kind} {ty} {lp} {nout} {ord(sep)} {ord('#')} {maxb} {m} {hx(data)}"
+        ctx.hist("csv_overload", f"{kind}{ty}{lp if kind != 'u' else ''}{'-string' if title is None else '-file'}"); ctx.hist("mode", m)
+        ctx.hist("csv_separator", repr(sep)); ctx.hist("batch_size_arg", maxb); ctx.hist("csv_comment_char", repr(comment))
+        if title is not None and kind == "u": ctx.hist("csv_title_lines", title)
+    if title is None:
+        return f"csv {kind} {ty} {lp} {nout} {ord(sep)} {ord(comment)} {maxb} {m} {hx(data)}"
+    return f"csvf {kind} {ty} {lp} {nout} {ord(sep)} {ord(comment)} {maxb} {title if kind == 'u' else 0} {m} {hx(data)}"
 
 
 def gen_csv1(r, ctx=None):
     """scalar readers: whitespace / comment separated values"""
-    ty = r.choice(["int", "uint", "f64"])
+    ty = r.choice(["int", "uint", "f64", "f32"])
     n = r.choice([0, 1, 2, 3, 5, 9])
     toks = []
     for _ in range(n):
         if ty == "f64": toks.append(num_token(r))
+        elif ty == "f32": toks.append(num_token(r) if r.chance(1, 2) else str(r.range(-99999, 9999999)))
         elif ty == "int": toks.append(r.choice([str(r.range(-50, 50)), "+7", "-0", "2147483647", "-2147483648", "2147483648", "007"]))
         else: toks.append(r.choice([str(r.range(0, 99)), "4294967295", "4294967296", "-1", "00"]))
         if r.chance(1, 12): toks.append("# note " + str(r.below(9)) + "\n")
@@ -231,7 +489,7 @@ def gen_csv1(r, ctx=None):
 
 
 def csv1_op(ty, maxb, data, ctx=None):
-    m = mode_of(data)
+    m = mode_of(data, float_scalar=(ty == "f32"))
     if ctx: ctx.hist("mode", m)
     return f"csv1 {ty} {ord('#')} {maxb} {m} {hx(data)}"
 
@@ -266,7 +524,7 @@ def load_corpus():
 
 def decode(op):
     t = op.split()
-    if t[0] == "rt": return b""
+    if t[0] in ("rt", "xcsv", "xsvm"): return b""
     return bytes.fromhex(t[-1]) if t[-1] != "-" else b""
 
 
@@ -284,7 +542,14 @@ def classify(ops, res):
     if t[0] == "rt":
         what_in = op
         feat = "F2b-empty-input" if t[1] == "svm" and t[-1] == "0" else "roundtrip"
-    elif t[0] == "svm":
+    elif t[0] in ("xcsv", "xsvm"):
+        what_in = op[:300]
+        feat = "export-roundtrip"
+    elif t[0] in ("csv", "csvf") and t[7] == "0":
+        feat = "F10-maxbatch-zero"
+    elif t[0] in ("csv", "csvf", "csv1") and exp_out_of_range(data, t[0] == "csv1" and t[1] == "f32"):
+        feat = "F11-exponent-out-of-range"
+    elif t[0] in ("svm", "svmf"):
         if not data.strip(b"\n") and t[2] == "c":
             feat = "F2b-empty-input"
         elif svm_unsorted(data):
@@ -310,13 +575,40 @@ def build(ctx):
     return ctx.harness("c19", ["c19.cpp"], repo_sources=["src/Data/SparseData.cpp", "src/Data/Csv.cpp"])
 
 
+PROBE_EXPRANGE = "csv1 f64 35 256 X 3120322031652d363135"    # "1 2 1e-615": three values (finding F11)
+PROBE_MAXB0 = "csv u f64 F 1 44 35 0 X 312c320a332c340a"      # "1,2\\n3,4\\n" with maximumBatchSize = 0 (finding F10)
+
+
+def strip_kind(ctx):
+    """line comparison: the harness appends ` #<which check fired>` to exception lines (evidence only)"""
+    def cmp(impl, model):
+        head, _, kind = impl.partition(" #")
+        if head == model:
+            if kind: ctx.hist("error_kind", kind.strip())
+            return True
+        return False
+    return cmp
+
+
+def outcome_class(line):
+    if line.startswith("exp="):
+        line = line.split(" imp=", 1)[1] if " imp=" in line else line[4:]
+    for k in ("ok", "shark-exception", "std-exception bad_alloc", "safety-only", "rt same", "rt shark-exception"):
+        if line.startswith(k): return k
+    return line.split(" ")[0][:30]
+
+
 def run(ctx):
     ctx.trusted += ["correspondence harness harness/c19.cpp + generator checks/c19.py",
-                    "hand-written model Model/Import.lean, Model/ImportLex.lean (SparseData.cpp, Csv.cpp are modelled, not translated)",
-                    "boost::spirit (parsing, value conversion) and libstdc++: exercised under ASan/UBSan, not modelled"]
-    ctx.assumptions += ["maximum batch size >= 1 for the CSV importers (0 divides by zero in optimalBatchSizes: documented precondition)",
-                        "values of numeric tokens are compared only when spirit converts them with a single rounding (<= 15 digits, 1-digit exponent)",
-                        "a single allocation above 1 MiB inside an importer is answered by std::bad_alloc (harness operator new)"]
+                    "hand-written model Model/Import.lean, Model/ImportLex.lean, Model/Peg.lean, Model/ImportCsv.lean, Model/ExportFmt.lean "
+                    "(SparseData.cpp, Csv.cpp, Csv.h, SparseData.h are modelled, not translated)",
+                    "boost::spirit 1.83 (parsing, value conversion), libstdc++ iostream number formatting: exercised under ASan/UBSan and "
+                    "compared byte for byte / bit for bit with the model, not proved about"]
+    ctx.assumptions += ["values of numeric tokens are compared when their integer+fraction digits fit spirit's uint64 accumulator (<= 17 digits; any exponent); "
+                        "longer tokens run for memory safety and the oracle only",
+                        "a single allocation above 1 MiB inside an importer is answered by std::bad_alloc (harness operator new)",
+                        "exportSparseData(sortLabels=true) uses std::sort, which is not stable: exercised for at most 13 elements, where libstdc++ sorts by insertion",
+                        "round trip: separator outside the characters of a printed number (0-9 . e + - i n f a), the blank characters and the comment character"]
     ctx.prove(["SharkVerif.Props.C19"])
     if not ctx.quick:
         ctx.leanchecker(["SharkVerif.Props.C19"])
@@ -324,45 +616,98 @@ def run(ctx):
     drv = ctx.driver("drv_c19")
     if not exe or not drv:
         return
-    nvalid, nmut = (1500, 2500) if ctx.quick else (15000, 35000)
-    cases = load_corpus()
-    ctx.cov["corpus_cases"] = len(cases)
+    env = {"ASAN_OPTIONS": "detect_leaks=0:abort_on_error=0:allocator_may_return_null=1:max_allocation_size_mb=512"}
+    tmp = os.path.join(core.CACHE, "tmp"); os.makedirs(tmp, exist_ok=True)
+    cmp = strip_kind(ctx)
+    # compile probe: every exporter overload the property names must be instantiable (finding F12: export_libsvm)
+    probe = os.path.join(core.VERIF, "harness", "c19_export_libsvm_probe.cpp")
+    rc, out = core.sh(["g++", "-std=c++11", "-DNDEBUG", "-w", "-fopenmp", "-fsyntax-only", "-I" + ctx.shark_h(),
+                       "-I" + os.path.join(core.REPO, "include"), probe], timeout=600)
+    ctx.cov["probe_export_libsvm_instantiable"] = "passes" if rc == 0 else "fails"
+    if rc != 0:
+        m = re.search(r"error: [^\n]*", out)
+        ctx.violation("export:F12-export-libsvm-uninstantiable", {"compile": probe, "error": (m.group(0) if m else out[-500:])},
+                      found_input=True, what="export_libsvm(dataset, fn) does not compile: " + (m.group(0) if m else ""))
+    # probe: maximumBatchSize = 0 (F10).  While the tree divides by zero there, the generated stream keeps maxB >= 1.
+    pr = core.run_case(ctx, [exe, tmp], [drv], [PROBE_MAXB0], env=env, cmp=cmp)
+    ctx.cov["probe_maxbatch_zero"] = "passes" if pr.ok else "fails"
+    global MAXB_CHOICES, EXPONENT_RANGE_REPAIRED
+    pe = core.run_case(ctx, [exe, tmp], [drv], [PROBE_EXPRANGE], env=env, cmp=cmp)
+    ctx.cov["probe_exponent_out_of_range"] = "passes" if pe.ok else "fails"
+    EXPONENT_RANGE_REPAIRED = pe.ok
+    MAXB_CHOICES = [1, 2, 3, 4, 256] + ([0] if pr.ok else [])
+    nvalid, nmut, nhost, nexp = (1500, 2500, 1500, 1500) if ctx.quick else (15000, 35000, 15000, 12000)
+    corpus = load_corpus()
+    ctx.cov["corpus_cases"] = len(corpus)
+    core.correspond(ctx, "K-C19[corpus]", corpus, [exe, tmp], [drv], classify, env=env, keep_prefix=0, max_report=8, cmp=cmp)
+    cases = []
     r = ctx.rng.fork("c19")
     for _ in range(nvalid):
         cases.append([svm_op(r, gen_svm_file(r, ctx), ctx)])
     for _ in range(nmut):
         base = gen_svm_file(r)
         cases.append([svm_op(r, mutate(r, base, ctx), ctx)])
+    for k in range(nhost):
+        data = gen_hostile_svm(r, ctx)
+        if k % 3 == 2: data = mutate(r, data, ctx)
+        cases.append([svm_op(r, data, ctx)])
     for _ in range(nvalid):
         prm = csv_params(r)
-        cases.append([csv_op(prm, gen_csv_file(r, prm[0], prm[2], prm[3], prm[4], ctx), ctx)])
+        cases.append([csv_op(prm, avoid_f11(ctx, lambda: gen_csv_file(r, prm[0], prm[2], prm[3], prm[4], ctx, comment=prm[6])), ctx)])
     for _ in range(nmut):
         prm = csv_params(r)
-        cases.append([csv_op(prm, mutate(r, gen_csv_file(r, prm[0], prm[2], prm[3], prm[4]), ctx), ctx)])
+        cases.append([csv_op(prm, avoid_f11(ctx, lambda: mutate(r, gen_csv_file(r, prm[0], prm[2], prm[3], prm[4], comment=prm[6]), ctx)), ctx)])
+    for k in range(nhost):
+        prm = csv_params(r)
+        data = avoid_f11(ctx, lambda: mutate(r, gen_hostile_csv(r, prm[0], prm[2], prm[3], ctx), ctx) if k % 3 == 2 else gen_hostile_csv(r, prm[0], prm[2], prm[3], ctx))
+        cases.append([csv_op(prm, data, ctx)])
     for _ in range(nvalid // 5):
         ty, maxb, data = gen_csv1(r, ctx)
+        for _ in range(8):
+            if EXPONENT_RANGE_REPAIRED or not exp_out_of_range(data, ty == "f32"): break
+            ty, maxb, data = gen_csv1(r, ctx)
         cases.append([csv1_op(ty, maxb, data, ctx)])
     for _ in range(nmut // 5):
         ty, maxb, data = gen_csv1(r)
-        cases.append([csv1_op(ty, maxb, mutate(r, data, ctx), ctx)])
-    nrt = 300 if ctx.quick else 5000
+        data = avoid_f11(ctx, lambda: mutate(r, data, ctx), ty == "f32")
+        cases.append([csv1_op(ty, maxb, data, ctx)])
+    nrt = 300 if ctx.quick else 3000
     cases += [[gen_rt(r, ctx)] for _ in range(nrt)]
-    ctx.cov["evaluations"] = len(cases)
-    ctx.cov["distinct_nontrivial"] = len({c[0] for c in cases if decode(c[0]).count(b"\n") >= 2 or (c[0].startswith("rt") and int(c[0].split()[-1]) >= 2)})
+    for _ in range(nexp):
+        cases.append([gen_xcsv(r, ctx)])
+        cases.append([gen_xsvm(r, ctx)])
+    ctx.cov["evaluations"] = len(cases) + len(corpus)
+    def nontrivial(op):
+        t = op.split()
+        if t[0] in ("xcsv", "xsvm"): return int(t[9]) >= 2
+        if t[0] == "rt": return int(t[-1]) >= 2
+        return decode(op).count(b"\n") >= 2
+    ctx.cov["distinct_nontrivial"] = len({c[0] for c in cases if nontrivial(c[0])})
     ctx.sample({"op": cases[len(cases) // 2][0][:200]})
-    env = {"ASAN_OPTIONS": "detect_leaks=0:abort_on_error=0:allocator_may_return_null=1:max_allocation_size_mb=512"}
-    tmp = os.path.join(core.CACHE, "tmp"); os.makedirs(tmp, exist_ok=True)
+    ctx.cov["watchdog_seconds_per_op"] = 20
     # chunks: a failing case only costs a one-by-one rerun of its own chunk
     size = 2000
+    slowest = 0.0
+    import time as _t
     for k in range(0, len(cases), size):
-        core.correspond(ctx, f"K-C19[{k // size}]", cases[k:k + size], [exe, tmp], [drv], classify, env=env,
-                        keep_prefix=0, max_report=6)
+        chunk = cases[k:k + size]
+        t0 = _t.time()
+        big = core.run_case(ctx, [exe, tmp], [drv], [l for c in chunk for l in c], env=env, timeout=900, cmp=cmp)
+        slowest = max(slowest, _t.time() - t0)
+        for l in big.impl: ctx.hist("outcome", outcome_class(l))
+        if big.ok:
+            ctx.count("traces_validated_against_impl", len(chunk)); ctx.count("ops_compared", len(chunk))
+            continue
+        core.correspond(ctx, f"K-C19[{k // size}]", chunk, [exe, tmp], [drv], classify, env=env,
+                        keep_prefix=0, max_report=6, cmp=cmp)
+    ctx.cov["slowest_chunk_s"] = round(slowest, 1)
+    ctx.log(f"K-C19: {len(cases)} cases, slowest chunk of {size}: {slowest:.1f}s (harness + driver)")
 
 
 def replay(ctx, rep):
     exe = build(ctx); drv = ctx.driver("drv_c19")
     tmp = os.path.join(core.CACHE, "tmp"); os.makedirs(tmp, exist_ok=True)
-    res = core.run_case(ctx, [exe, tmp], [drv], rep["ops"], env=rep.get("env"))
+    res = core.run_case(ctx, [exe, tmp], [drv], rep["ops"], env=rep.get("env"), cmp=strip_kind(ctx))
     print("\n".join(f"impl : {a}\nmodel: {b}" for a, b in zip(res.impl, res.model)))
     print("stderr:", res.stderr[-2000:])
     print("OK" if res.ok else "FAILS")
